@@ -34,6 +34,7 @@ var c08Corpus = []string{
 	"{{ \"it's\" }}",
 	"{{ a.len() ? 'y' : 'n' }}",
 	"@each(v in a)@if(v){{ v }}@end@end",
+	"{{ x = 1 + 2; x }}{{ y = x }}",
 }
 
 // refIncomplete: the template text p ends inside an open {{ }}, directive argument list, string or comment, or
